@@ -136,6 +136,9 @@ fn check_named(c: &NamedList) -> Verdict {
         "default-square" => (SymbolList::default().enforce_square(), mask_where(|s| s.is_square() && s.iso16022)),
         "default-rectangular" => (SymbolList::default().enforce_rectangular(), mask_where(|s| !s.is_square() && s.iso16022)),
         "square-then-rect" => (SymbolList::all().enforce_square().enforce_rectangular(), 0),
+        "empty-whitelist" => (SymbolList::with_whitelist(Vec::<SymbolSize>::new()), 0),
+        "empty-array" => (SymbolList::from([] as [SymbolSize; 0]), 0),
+        "one-symbol-twice" => (SymbolList::with_whitelist([SymbolSize::Square16, SymbolSize::Square16]), 1 << 3),
         _ => return Verdict::EngineBug("unknown list".into()),
     };
     let got = list_mask(&l);
@@ -155,6 +158,12 @@ fn check_named(c: &NamedList) -> Verdict {
     }
     if let Err(e) = order_ok(&l) {
         return fail(format!("list {:?}: {}", c.0, e));
+    }
+    if want == 0 {
+        match guard(|| datamatrix::DataMatrix::encode(b"A", l.clone()).map(|d| d.size)) {
+            Ok(Err(datamatrix::data::DataEncodingError::SymbolListEmpty)) => {}
+            other => return fail(format!("encoding with the empty list {:?} gives {:?}, expected Err(SymbolListEmpty)", c.0, other)),
+        }
     }
     Verdict::Pass(Pass::new("named-lists", true))
 }
@@ -301,7 +310,7 @@ impl ChainCase {
 fn near_dimension(x: usize, cols: bool) -> bool {
     SYMBOLS.iter().any(|s| {
         let d = if cols { s.cols } else { s.rows };
-        x + 1 >= d && x <= d + 1
+        x.saturating_add(1) >= d && x <= d + 1
     })
 }
 
@@ -440,7 +449,7 @@ fn check_sweep(c: &RangeSweep) -> Verdict {
 
 fn run(ctx: &Arc<Ctx>) {
     ctx.run_enumerated("attributes", "attr", (0..48).map(AttrCase).collect(), Some("all 48 sizes x all attributes"), check_attr);
-    let named = ["default", "extended", "all", "square", "rectangular", "default-square", "default-rectangular", "square-then-rect"].iter().map(|s| NamedList(s)).collect();
+    let named = ["default", "extended", "all", "square", "rectangular", "default-square", "default-rectangular", "square-then-rect", "empty-whitelist", "empty-array", "one-symbol-twice"].iter().map(|s| NamedList(s)).collect();
     ctx.run_enumerated("named-lists", "named", named, Some("default / extended / all / square / rectangular lists"), check_named);
     let mut sweeps = Vec::new();
     for height in [false, true] {
@@ -451,6 +460,20 @@ fn run(ctx: &Arc<Ctx>) {
         }
     }
     ctx.run_enumerated("range-sweep", "sweep", sweeps, Some("every width and height range with bounds 0..=150 in 8 RangeBounds shapes on the default and extended list"), check_sweep);
+    // bounds at the edges of usize and around the smallest / largest dimensions, all 8 shapes
+    let edge = [0usize, 1, 7, 8, 9, 10, 11, 143, 144, 145, usize::MAX - 1, usize::MAX];
+    let mut extremes = Vec::new();
+    for base in ["default", "all"] {
+        for a in edge {
+            for b in edge {
+                for sh in SHAPES {
+                    extremes.push(ChainCase { whitelist: vec![], base, chain: vec![Filter::Width(sh, a, b)] });
+                    extremes.push(ChainCase { whitelist: vec![], base, chain: vec![Filter::Height(sh, a, b)] });
+                }
+            }
+        }
+    }
+    ctx.run_enumerated("extreme-bounds", "chain", extremes, Some("width / height filters with both bounds from {0, 1, 7..11, 143..145, usize::MAX-1, usize::MAX} in 8 RangeBounds shapes"), check_chain);
     ctx.run_generated("chains", "chain", ctx.cases(100_000, 2_000_000), g_chain, check_chain);
     let o = EncGenOpts { long_weight: 1, macro_weight: 1, allow_fnc1: false, ..Default::default() };
     ctx.run_generated("pick", "enc", ctx.cases(100_000, 1_000_000), || g_enc_case(o), check_pick);
@@ -461,7 +484,7 @@ fn replay(_ctx: &Ctx, kind: &str, case: &Value) -> Option<Verdict> {
         "attr" => Some(check_attr(&AttrCase(refimpl::table::index_of(case["size"].as_str()?)?))),
         "named" => {
             let n = case["list"].as_str()?;
-            let s = ["default", "extended", "all", "square", "rectangular", "default-square", "default-rectangular", "square-then-rect"].into_iter().find(|x| *x == n)?;
+            let s = ["default", "extended", "all", "square", "rectangular", "default-square", "default-rectangular", "square-then-rect", "empty-whitelist", "empty-array", "one-symbol-twice"].into_iter().find(|x| *x == n)?;
             Some(check_named(&NamedList(s)))
         }
         "sweep" => Some(check_sweep(&RangeSweep { height: case["sweep"] == "height", base_all: case["base"] == "all", a: case["a"].as_u64()? as usize })),
